@@ -243,7 +243,68 @@ static void op_huff(int argc, char** a)
 	free(out); free(out2); free(dec); free(s); free(l);
 }
 
+
+/* ---------- C19 ---------- */
+#include "rw.h"
+/* rw <type 0..9> <dataEndianType> <mode> <values>
+ * mode 0: library writer, then library reader; mode 1: a file with every element byte-swapped (written with
+ * writeByteData), read with the opposite endianness declared; mode 2: reader on a missing file. */
+static void op_rw(int argc, char** a)
+{
+	int ty = (int)hx(a[0]); int de = (int)hx(a[1]); int mode = (int)hx(a[2]);
+	uint64_t* l; size_t n = parse_list(a[3], &l);
+	int es = elem_size(ty);
+	char path[600]; const char* dir = getenv("SZV_TMP"); snprintf(path, sizeof path, "%s/szv-rw-%d.bin", dir ? dir : "/var/tmp", (int)getpid());
+	int saved = dataEndianType;
+	unsigned char* buf = (unsigned char*)malloc(n * es + 8);
+	for (size_t i = 0; i < n; i++) memcpy(buf + i * es, &l[i], es);
+	int st_w = -99, st_r = -99;
+	dataEndianType = de;
+	if (mode == 0) {
+		switch (ty) {
+		case SZ_FLOAT: writeFloatData_inBytes((float*)buf, n, path, &st_w); break;
+		case SZ_DOUBLE: writeDoubleData_inBytes((double*)buf, n, path, &st_w); break;
+		case SZ_UINT8: case SZ_INT8: writeByteData(buf, n, path, &st_w); break;
+		case SZ_INT16: writeShortData_inBytes((short*)buf, n, path, &st_w); break;
+		case SZ_UINT16: writeUShortData_inBytes((unsigned short*)buf, n, path, &st_w); break;
+		case SZ_INT32: writeIntData_inBytes((int*)buf, n, path, &st_w); break;
+		case SZ_UINT32: writeUIntData_inBytes((unsigned int*)buf, n, path, &st_w); break;
+		case SZ_INT64: writeLongData_inBytes((int64_t*)buf, n, path, &st_w); break;
+		default: writeULongData_inBytes((uint64_t*)buf, n, path, &st_w); break;
+		}
+	} else if (mode == 1) {
+		unsigned char* sw = (unsigned char*)malloc(n * es + 8);
+		for (size_t i = 0; i < n; i++) for (int j = 0; j < es; j++) sw[i * es + j] = buf[i * es + (es - 1 - j)];
+		writeByteData(sw, n * es, path, &st_w);
+		free(sw);
+		dataEndianType = 1 - sysEndianType;
+	} else {
+		unlink(path);
+	}
+	size_t fl = 0; int st_f = -99; unsigned char* file = (mode == 2) ? NULL : readByteData(path, &fl, &st_f);
+	size_t cnt = (size_t)-1; void* r = NULL;
+	switch (ty) {
+	case SZ_FLOAT: r = readFloatData(path, &cnt, &st_r); break;
+	case SZ_DOUBLE: r = readDoubleData(path, &cnt, &st_r); break;
+	case SZ_UINT8: r = readByteData(path, &cnt, &st_r); break;
+	case SZ_INT8: r = readInt8Data(path, &cnt, &st_r); break;
+	case SZ_INT16: r = readInt16Data(path, &cnt, &st_r); break;
+	case SZ_UINT16: r = readUInt16Data(path, &cnt, &st_r); break;
+	case SZ_INT32: r = readInt32Data(path, &cnt, &st_r); break;
+	case SZ_UINT32: r = readUInt32Data(path, &cnt, &st_r); break;
+	case SZ_INT64: r = readInt64Data(path, &cnt, &st_r); break;
+	default: r = readUInt64Data(path, &cnt, &st_r); break;
+	}
+	dataEndianType = saved;
+	if (mode == 2) { printf("st_r=%d null=%d\n", st_r, r == NULL); return; }
+	printf("st_w=%d st_r=%d n=%zx vals=", st_w, st_r, cnt);
+	if (cnt == 0 || r == NULL) printf("_");
+	else for (size_t i = 0; i < cnt; i++) { uint64_t v = 0; memcpy(&v, (char*)r + i * es, es); printf(i ? ",%" PRIx64 : "%" PRIx64, v); }
+	printf(" "); print_bytes("file", file, fl); printf("\n");
+	unlink(path); free(buf); free(l); if (r) free(r); if (file) free(file);
+}
+
 struct op more_ops[] = {
-	{"rt", op_rt}, {"rtr", op_rtr}, {"fdim", op_fdim}, {"huff", op_huff},
+	{"rt", op_rt}, {"rtr", op_rtr}, {"fdim", op_fdim}, {"huff", op_huff}, {"rw", op_rw},
 	{NULL, NULL}
 };
